@@ -94,6 +94,22 @@ def gen(rng, tier):
     for text in G.break_scalar_documents():
         add(text, 0x2C, 0, "breaks-scalar")
 
+    # the ERROR path: a ciphertext-form secret whose envelope is not valid (too short, wrong checksum, wrong magic), at a
+    # key that sorts before / between / after ordinary static secrets: it is an error of its own, on both forms of the
+    # document, and every other secret still opens (seeded change C04-m: "the decrypter is unavailable" remembered after
+    # the first failure)
+    import base64 as _b64
+    good = G.envelope(G.toy_encrypt(b"kept", 0x31, 1))
+    raw = bytearray(_b64.b64decode(good))
+    raw[-1] ^= 0x01
+    bads = ["AAAA", _b64.b64encode(bytes(raw)).decode(), _b64.b64encode(b"nope" + bytes(raw[4:])).decode()]
+    for bi, bad in enumerate(bads):
+        for pos in range(3):
+            ents = [("b1", "fn::secret: first"), ("c2", "fn::secret: \"second secret\""),
+                    ("d3", "fn::secret:\n      ciphertext: %s" % good)]
+            ents.insert(pos, ("a0" if pos == 0 else "b5" if pos == 1 else "z9", "fn::secret:\n      ciphertext: %s" % bad))
+            text = "values:\n" + "".join("  %s:\n    %s\n" % (k, v) for k, v in ents)
+            add(text, 0x31, 1, "bad-envelope")
     # ciphertext lengths 0..40 exactly
     for n in range(0, 41):
         for pad in sorted({0, min(n, 2), n}):
